@@ -134,3 +134,14 @@ Definition f_ipslice_af (l : line) (name : bytes) (v : option bytes) : res line 
                 end
    | None => copy_in l NIL
    end)%res.
+
+(* IP as found: l.index = l.index + len(b) -- the index advanced by the whole text even when AppendTo had to
+   reallocate, i.e. past byte 2048 *)
+Definition f_ip_af (l : line) (name : bytes) (v : option bytes) : res line :=
+  (l <- field_open l name ;;
+   match v with
+   | Some t =>
+       if Nat.ltb BUFSZ (index l) then Panic
+       else Ok (mkLine (write_at (buf l) (index l) (firstn (BUFSZ - index l) t)) (index l + List.length t))
+   | None => copy_in l NIL
+   end)%res.
